@@ -565,7 +565,7 @@ theorem CB.push {s : State} (h : CB d0 s) {r : Id} (hel : IsEl s.dom r) (htc : T
       rcases List.mem_append.mp hx with hx | hx
       · exact h.h.open_tc x hx
       · rw [List.mem_singleton.mp hx]; exact htc,
-    h.h.af, h.h.head, h.h.form, h.h.ctx⟩
+    h.h.af, h.h.head, h.h.form, h.h.ctx, h.h.headTc⟩
   l := ⟨h.l.mode, h.l.orig, h.l.tm⟩
 
 theorem FreshNode.of_same_dom {d d' : Dom} {r : Id} (h : FreshNode d r) (e : d' = d) : FreshNode d' r := e ▸ h
